@@ -4,7 +4,7 @@
         op = call <p> <data> | inext <i> | inextlost <i> | iclose <i> | pcall <p> | prel <p>
            | open <conn> <data> | next <id> <conn> | close <id> | disc <conn> | hk | tick <dt>
         data = P (not an iterator) | I:<item,...>   item = v<n> (yield n) | r<n> (raise n)
-      → r1;r2;... | <table> | <proxies> | <iters> | <server log length>
+      → r1;r2;... | <table> | <proxies> | <iters> | <server log length> | src:ok|src:DIFF (the server history through the transcription of server.py agrees with the model)
         table   = id:owner:created:linger:rest,...  (dict order; owner `n` = None)
         proxies = conn/seq,...      iters = proxy/pyroseq/sid,...
     race <modes: 4 letters s|t for next,close,disconnect,housekeeping> <lifetime> <linger> <now> <table> <heap> {prog}*   prog = call+call+..  call = N.sid.conn | C.sid | D.conn | H
@@ -12,6 +12,7 @@
 -/
 import PyroModel.Streams
 import PyroModel.StreamsRace
+import PyroModel.StreamsSrcRun
 import Driver.Util
 
 open Pyro Pyro.Streams Driver
@@ -115,7 +116,9 @@ def stepLine : List String → String
       ";".intercalate (rs.map cresStr) ++ " | " ++ tableStr s.srv.table ++ " | " ++
         listStr (s.proxies.map fun p => s!"{optStr p.conn}/{p.seq}") ++ " | " ++
         listStr (s.iters.map fun it => s!"{optStr it.proxy}/{it.pyroseq}/{it.sid}") ++ " | " ++
-        toString s.log.length
+        toString s.log.length ++
+        -- the same server history through the functions TRANSCRIBED from server.py (Gen/C10.lean): replies and final table
+        (if srcAgrees cfg (State.init t) (s.log.map (·.1)) then " | src:ok" else " | src:DIFF")
     | _, _, _, _, _, _, _ => "bad-op"
   | "race" :: rest => Pyro.StreamsRace.raceLine rest
   | _ => "bad-op"
